@@ -63,6 +63,31 @@ def run(tier, seed):
             rep = {"parse": 0, "pair": 0, "check": 0, "throttle_states": 0, "throttle_edges": 0, "nviol": 1, "violations": [], "samples": []}
         else:
             rep = json.load(open(res))
+        # the throttle automaton once more with the cache directory on ANOTHER file system than the temporary directory (a home on
+        # disk with /tmp on tmpfs, or the reverse): where the updater keeps its cache must not matter
+        rep["other_filesystem"] = "not available"
+        import tempfile
+        shm = "/dev/shm"
+        if os.path.isdir(shm) and os.access(shm, os.W_OK) and os.stat(shm).st_dev != os.stat(tempfile.gettempdir()).st_dev:
+            other = tempfile.mkdtemp(prefix="verif-upd-", dir=shm)
+            try:
+                res2 = os.path.join(tmp, "out2.json")
+                p2 = subprocess.run([exe, dumps[2], res2, os.path.join(other, "cache")], env=env, stdout=subprocess.PIPE, stderr=subprocess.PIPE, timeout=3000)
+                if p2.returncode == 2:
+                    raise vlib.Infra("update_harness (second cache location): %s" % p2.stderr.decode(errors="replace")[-500:])
+                if p2.returncode != 0 or not os.path.exists(res2):
+                    out.violation("the updater harness died with the cache on another file system (rc=%d): %s" % (p2.returncode, p2.stderr.decode(errors="replace")[-500:]),
+                                  {"rc": p2.returncode}, "crash2")
+                    rep["nviol"] += 1
+                else:
+                    rep2 = json.load(open(res2))
+                    rep["other_filesystem"] = {"cache_dir": shm, "throttle_edges": rep2["throttle_edges"], "violations": rep2["nviol"]}
+                    rep["nviol"] += rep2["nviol"]
+                    for v in rep2["violations"]:
+                        v["what"] = "[cache directory on another file system than the temporary directory] " + v["what"]
+                        rep["violations"].append(v)
+            finally:
+                shutil.rmtree(other, ignore_errors=True)
     finally:
         shutil.rmtree(tmp, ignore_errors=True)
     known = vlib.known_for(PID)
@@ -84,7 +109,7 @@ def run(tier, seed):
     cov = {"states": sum(m["distinct"] for m in metas), "transitions": sum(m["generated"] for m in metas),
            "traces_validated_against_impl": rep["parse"] + rep["pair"] + rep["check"] + rep["throttle_edges"],
            "version_strings_parsed": rep["parse"], "version_pairs_decided": rep["pair"], "checksum_files": rep["check"],
-           "throttle_states": rep["throttle_states"], "throttle_transitions_replayed": rep["throttle_edges"],
+           "throttle_states": rep["throttle_states"], "throttle_transitions_replayed": rep["throttle_edges"], "throttle_with_cache_on_other_filesystem": rep["other_filesystem"],
            "samples": rep["samples"] or [{"note": "none"}], "tlc": metas, "exhaustive": True,
            "rule": "TLC enumerates (1) every string of length <= %d over {v,0,1,9,.,-,a} plus long/odd extras with its parse result, and "
                    "every ordered pair of a stratified subset with Compare / Decision(--update) / notice; (2) every checksums.txt of <= 3 "
